@@ -55,10 +55,10 @@ func vrfFileRaceOnce(scn int, pre int) {
 	id1, perr := st.AddMessage(mk("1"))
 	vrf.Assert("prelude-noerr", perr == nil)
 	vrf.Preemptions(pre)
-	if scn == 4 || scn == 5 {
+	if scn == 4 || scn == 5 || scn == 6 {
 		// every file-system mutation of the store is a scheduling point too: the other goroutine
 		// may run while this one is in the middle of an update, holding the mailbox lock
-		if scn == 5 {
+		if scn == 5 || scn == 6 {
 			CrashHook = func(site, path string) { vrf.PreemptPoint() }
 		} else {
 			CrashHook = func(site, path string) { vrf.Yield() }
@@ -87,7 +87,14 @@ func vrfFileRaceOnce(scn int, pre int) {
 			done <- rs.DoScan(context.Background())
 		}()
 	}
-	if scn == 5 {
+	if scn == 6 {
+		// two clients mark two different messages of the same mailbox as seen at the same time
+		id2, perr2 := st.AddMessage(mk("2"))
+		vrf.Assert("prelude-noerr", perr2 == nil)
+		idB = id2
+		go func() { done <- st.MarkSeen("alpha", id1) }()
+		go func() { done <- st.MarkSeen("alpha", id2) }()
+	} else if scn == 5 {
 		// the mailbox is emptied (its directory and empty parents are removed) while a sibling
 		// mailbox - same level-1 directory, same lock bucket - gets its first message
 		rounds := 1
@@ -180,6 +187,11 @@ func vrfFileRaceOnce(scn int, pre int) {
 		pa, _ := has(idA)
 		vrf.Assert("expired-message-removed-by-the-scan", !p1)
 		vrf.Assert("delivered-message-not-lost", pa)
+	case 6:
+		p1, s1 := has(id1)
+		p2, s2 := has(idB)
+		vrf.Assert("both-messages-present", p1 && p2 && len(ms) == 2)
+		vrf.Assert("both-seen-flags-kept", s1 && s2)
 	case 5:
 		vrf.Assert("purged-mailbox-empty", len(ms) == 0)
 		sm, serr := st.GetMessages(vrfSibling)
